@@ -620,22 +620,31 @@ Definition read (T: ty) (b: bytes) : option (aval * bytes) :=
 (* indefinite length exactly for constructed encodings; string segments of 1000 octets, the last
    one shorter and non-empty, strings of at most 1000 octets primitive; FF for TRUE is checked
    where the type is known (cer_bool) *)
+Fixpoint cer_segments (kids: list node) : bool :=
+  match kids with
+  | [] => false
+  | [Prim _ _ c _] => Nat.leb 1 (length c) && Nat.leb (length c) 1000
+  | Prim _ _ c _ :: r => Nat.eqb (length c) 1000 && cer_segments r
+  | _ => false
+  end.
+
+Definition string_number (num: N) : bool :=
+  N.eqb num 3 || N.eqb num 4 || N.eqb num 7 || N.eqb num 12 || (N.leb 18 num && N.leb num 30).
+
 Fixpoint cer_shape (fuel: nat) (n: node) : bool :=
   match fuel with
   | O => false
   | S f =>
       match n with
-      | Prim _ _ c _ => Nat.leb (length c) 1001      (* a primitive string never exceeds 1000 content octets (+1 for BIT STRING) *)
-      | Cons _ _ indef kids _ => indef && forallb (cer_shape f) kids
+      | Prim cl num c _ =>
+          (* 9.2: a primitive string never exceeds 1000 contents octets (recognisable here, without the
+             type, only when it carries its own universal tag); other primitives have no such limit *)
+          if N.eqb (class_no cl) 0 && string_number num then Nat.leb (length c) 1000 else true
+      | Cons cl num indef kids _ =>
+          indef && forallb (cer_shape f) kids
+          (* a constructed string is a run of full 1000-octet primitive segments and a last, non-empty one *)
+          && (if N.eqb (class_no cl) 0 && string_number num then cer_segments kids else true)
       end
-  end.
-
-Fixpoint cer_segments (kids: list node) : bool :=
-  match kids with
-  | [] => false
-  | [Prim _ _ c _] => Nat.leb 1 (length c) && Nat.leb (length c) 1001
-  | Prim _ _ c _ :: r => (Nat.eqb (length c) 1000 || Nat.eqb (length c) 1001) && cer_segments r
-  | _ => false
   end.
 
 Definition cer_canonical (b: bytes) : bool :=
